@@ -95,6 +95,7 @@ func (u *UseRef) wants(name string) bool {
 type UnitContract struct {
 	Uses        []*UseRef
 	Establishes []*UseRef
+	Relies      []*UseRef // "relies FUNC: names": the named postconditions of an opaque callee are assumed after its call
 	AtStmts     []*AtStmt
 	PkgDir      string
 	Func        string
@@ -492,9 +493,10 @@ func (cs *ContractSet) parseFile(path, pkgdir string) error {
 			cur.Trusted = true
 		case strings.HasPrefix(t, "aborts-only "):
 			cur.AbortsOnly = strings.TrimSpace(strings.TrimPrefix(t, "aborts-only "))
-		case strings.HasPrefix(t, "uses "), strings.HasPrefix(t, "establishes "):
+		case strings.HasPrefix(t, "uses "), strings.HasPrefix(t, "establishes "), strings.HasPrefix(t, "relies "):
 			isUse := strings.HasPrefix(t, "uses ")
-			rest := strings.TrimSpace(strings.TrimPrefix(strings.TrimPrefix(t, "uses "), "establishes "))
+			isRely := strings.HasPrefix(t, "relies ")
+			rest := strings.TrimSpace(strings.TrimPrefix(strings.TrimPrefix(strings.TrimPrefix(t, "uses "), "establishes "), "relies "))
 			ur := &UseRef{Line: l.line}
 			if k := strings.Index(rest, ":"); k >= 0 {
 				ur.Names = strings.Fields(rest[k+1:])
@@ -504,7 +506,12 @@ func (cs *ContractSet) parseFile(path, pkgdir string) error {
 			if ur.Target == "" {
 				return fail(l, "uses REGION[: names] / establishes FUNC[: names]")
 			}
-			if isUse {
+			if isRely {
+				if len(ur.Names) == 0 {
+					return fail(l, "relies FUNC: names")
+				}
+				cur.Relies = append(cur.Relies, ur)
+			} else if isUse {
 				cur.Uses = append(cur.Uses, ur)
 			} else {
 				cur.Establishes = append(cur.Establishes, ur)
